@@ -1,28 +1,53 @@
 /* c02_drv.c - conformance driver for C02 (PCA components are the principal axes; equivariance).
  *
- * usage: c02_drv <out.ndjson> cases <casefile> <nproc>
- *        c02_drv <out.ndjson> one <n> <c> <scaling> <dec> <tail> <mseed> <nproc> <L> s2_1 .. s2_L
- * casefile: one case per line  "<n> <c> <scaling> <dec> <tail> <mseed> <L> s2_1 .. s2_L"
- *   (spectra and shapes come out of TLC: Pca.tla section Spectral; scaling/decade/tail/seed are drawn by the check)
+ * usage: c02_drv <out.ndjson> cases <casefile>
+ *        c02_drv <out.ndjson> one <n> <c> <scaling> <dec> <tail> <mseed> <nproc> <loc> <deg> <hist> <L> s2_1 .. s2_L
+ * casefile: one case per line  "<n> <c> <scaling> <dec> <tail> <mseed> <nproc> <loc> <deg> <hist> <L> s2_1 .. s2_L"
+ *   (spectra, shapes and processor counts come out of TLC: Pca.tla section Spectral; the other parameters are drawn by the check)
+ *
+ *   nproc  forced processor count (hook H2): 1 = the sequential redirect, > 1 = the MT_* kernels really run with that many workers
+ *   loc    location class: 0 = offsets 0.1 .. 100 x the data magnitude (the original class); 3..8 = |offset_j| / sdev_j of (most) columns
+ *          drawn log-uniformly in [10^(loc-1), 10^loc]
+ *   deg    degenerate-but-admissible factor: 0 none, 1 two identical objects (rows), 2 two identical variables (columns),
+ *          3 a constant column among informative ones (value 0.1 / 1/3 / 0.7 x magnitude: not representable), 4 every offset such a constant
+ *   hist   1 = in-process history: a fit of a different shape and one of the same shape on other data precede the fit under test (models
+ *          deleted, so that their addresses are handed out again), the fit under test is repeated at the end (Hist event), and finally
+ *          the data are fitted into a model that already holds another fit (Reuse event: outside the statement, reported as extra)
  *
  * Data magnitude: dec runs over -8..6 for scalings 0 / -1 (which do not normalise the magnitude; with the 1e+-3 paired run 1e-11..1e9)
- * and over 0..3 for scalings 1..5 (smaller magnitudes fall under the library's zero-scale guard: C10/C18 territory).
+ * and over 0..6 for scalings 1..5 (smaller magnitudes fall under the library's zero-scale guard: C10/C18 territory).
  * For each case the data are X = U diag(sigma) V' + 1 offset' with sigma_k = sqrt(s2_k) * 10^dec (plus an optional
  * closely spaced tail below 0.1 sigma_L), U (n x r) orthonormal and orthogonal to the ones vector, V (c x r)
  * orthonormal, both from seeded Gaussian matrices by Gram-Schmidt QR with re-orthogonalisation in long double:
- * the centred matrix has exactly that SVD.  Truth: scaling 0 / -1 the construction itself; scalings 1..5 a cyclic
- * Jacobi eigen-solver in long double on E'E (E = MatrixPreprocess(X)), cross-checked against LAPACK dsyev
- * (prototype declared here).  The fit runs in a forked child under the H4 iteration budget.
+ * the centred matrix has exactly that SVD.
+ * Truth: the preprocessed matrix E is ALWAYS computed here, in long double, from the documented definition of the option (two-pass
+ * mean with correction, two-pass sample sdev, rms of the raw column, sqrt(sdev), range, mean) - never taken from the library.
+ * Scaling 0 / -1 with ordinary offsets: the construction itself is the truth; otherwise a cyclic Jacobi eigen-solver in long double
+ * on E'E, cross-checked against LAPACK dsyev (prototype declared here).  The fit runs in a forked child under the H4 iteration budget.
  *
  * Events (integers; errors in 1e-9 units unless stated, saturating at 2e9):
  *   Reset{}
- *   Case{seed,n,c,scaling,dec,tail,L,nproc,src}           src = "svd" (constructed truth) | "jacobi"
+ *   Case{seed,n,c,scaling,dec,tail,L,nproc,loc,deg,hist,src}   src = "svd" (constructed truth) | "jacobi"
  *   Spectrum{sig2[]}                                      true eigenvalues relative to the largest, 1e-9 units, leading npc+1
+ *   Loc{loc12,ratio}                                      only when loc > 0 (or un-centred offsets): one ulp of the column locations, as a
+ *                                                         perturbation of E relative to its leading singular value:
+ *                                                         2^-53 sqrt(n SUM_j (m_j/scale_j)^2) / sigma_1, 1e-12 units (m_j = |mean_j|, or the
+ *                                                         column rms when the option does not centre); ratio = max_j |mean_j|/sdev_j (rounded)
  *   Oracle{err}                                           Jacobi vs dsyev (and vs the construction), relative to lambda_1, 1e-12 units
+ *   Kern{site,len,np,from[],to[],calls}                   nproc > 1 only: the slices handed out by the first call of the MT kernel
+ *                                                         (site "vm" = t'E over columns, "mv" = E p over rows) in the fit under test (hook H3)
+ *   Stop{k,its,conv,prev,start}                           component k of the fit under test: iterations, the criterion value at the stop and
+ *                                                         the one before (1e-13 units; hook H4); k = 1: t't of the start vector against the
+ *                                                         largest column sum of squares of the reference E (relative, 1e-9)
  *   Axis{k,match,purity,terr,perr,evalErr,vErr}           component k: matched true axis, 1-|<p,v>| (1e-12), score / loading error,
  *                                                         |t't - lambda_k|/lambda_k, explained variance vs lambda_k/trace (relative)
  *   Pair{kind,terr[],perr[]}                              rowperm | colperm | rot: paired run vs transformed original, per component
  *   Scale{cexp,terr[],perr[],verr[]}                      PCA(10^cexp X) vs PCA(X): normalised scores, loadings, explained variances
+ *   Hist{terr[],perr[],same}                              hist = 1: the fit under test repeated after the other fits; same = 1 if bit-identical
+ *   Prep{avgErr,sclErr}                                   model->colaverage / colscaling against the long-double statistics (relative, 1e-9;
+ *                                                         outside the statement: extra)
+ *   Reuse{terr[],perr[],vlen}                             hist = 1: fit into a model that already holds a fit of other data; vlen = length of its
+ *                                                         explained-variance vector afterwards (extra)
  *   Abort{rc,why}   Dropped{why}
  */
 #include "scientific.h"
@@ -32,25 +57,47 @@ extern void dsyev_(char *jobz, char *uplo, int *n, double *a, int *lda, double *
 
 typedef long double ld;
 #define MAXL 8
+#define MAXNP 64
 #define F9_HI 1.2e-2
+#define MISSING_LO 99999990.0
+#define MISSING_HI 100000008.0
 
-typedef struct { int n, c, scaling, dec, tail, L, nproc; long mseed; double s2[MAXL]; } ccase;
+typedef struct { int n, c, scaling, dec, tail, L, nproc, loc, deg, hist; long mseed; double s2[MAXL]; } ccase;
 
 /* ---------------------------------------------------------------- orthonormal bases */
-/* Q: rows x cols (row-major, ld); columns orthonormal; if ones != 0 every column is also orthogonal to (1,..,1) */
-static void rand_orth(vrng *r, int rows, int cols, int ones, ld *Q)
+/* Q: rows x cols (row-major, ld); columns orthonormal and orthogonal to the ncon constraint vectors con[q*rows + i] (made orthonormal
+ * here); returns 0 if the space is too small */
+static int rand_orth_c(vrng *r, int rows, int cols, int ncon, ld *con, ld *Q)
 {
+  int nc = 0;
+  for(int q = 0; q < ncon; q++){ /* orthonormalise the constraints among themselves */
+    ld *v = con + (size_t)q * rows;
+    for(int pass = 0; pass < 2; pass++) for(int p = 0; p < nc; p++){ ld d = 0; for(int i = 0; i < rows; i++) d += v[i] * con[(size_t)p * rows + i]; for(int i = 0; i < rows; i++) v[i] -= d * con[(size_t)p * rows + i]; }
+    ld nn = 0; for(int i = 0; i < rows; i++) nn += v[i] * v[i];
+    if(nn > 1e-20L){ nn = sqrtl(nn); for(int i = 0; i < rows; i++) con[(size_t)nc * rows + i] = v[i] / nn; nc++; }
+  }
+  if(rows - nc < cols) return 0;
   for(int j = 0; j < cols; j++){
-    for(int attempt = 0; attempt < 20; attempt++){
+    int done = 0;
+    for(int attempt = 0; attempt < 20 && !done; attempt++){
       for(int i = 0; i < rows; i++) Q[i * cols + j] = vr_norm(r);
       for(int pass = 0; pass < 3; pass++){
-        if(ones){ ld m = 0; for(int i = 0; i < rows; i++) m += Q[i * cols + j]; m /= rows; for(int i = 0; i < rows; i++) Q[i * cols + j] -= m; }
+        for(int p = 0; p < nc; p++){ ld d = 0; for(int i = 0; i < rows; i++) d += Q[i * cols + j] * con[(size_t)p * rows + i]; for(int i = 0; i < rows; i++) Q[i * cols + j] -= d * con[(size_t)p * rows + i]; }
         for(int q = 0; q < j; q++){ ld d = 0; for(int i = 0; i < rows; i++) d += Q[i * cols + j] * Q[i * cols + q]; for(int i = 0; i < rows; i++) Q[i * cols + j] -= d * Q[i * cols + q]; }
       }
       ld nn = 0; for(int i = 0; i < rows; i++) nn += Q[i * cols + j] * Q[i * cols + j];
-      if(nn > 1e-6L){ nn = sqrtl(nn); for(int i = 0; i < rows; i++) Q[i * cols + j] /= nn; break; }
+      if(nn > 1e-6L){ nn = sqrtl(nn); for(int i = 0; i < rows; i++) Q[i * cols + j] /= nn; done = 1; }
     }
+    if(!done) return 0;
   }
+  return 1;
+}
+static void rand_orth(vrng *r, int rows, int cols, int ones, ld *Q)
+{
+  ld *con = malloc(sizeof(ld) * rows);
+  for(int i = 0; i < rows; i++) con[i] = 1;
+  rand_orth_c(r, rows, cols, ones ? 1 : 0, con, Q);
+  free(con);
 }
 
 /* ---------------------------------------------------------------- oracle: cyclic Jacobi in long double */
@@ -81,12 +128,48 @@ static int lapack_eigvals(int c, const ld *G, double *w)
 {
   int n = c, lda = c, info = 0, lwork = -1; double wk; char jobz = 'N', uplo = 'U';
   double *a = malloc(sizeof(double) * c * c);
-  for(int i = 0; i < c * c; i++) a[i] = (double)G[i];
+  ld mx = 0; for(int i = 0; i < c * c; i++) if(fabsl(G[i]) > mx) mx = fabsl(G[i]);
+  if(!(mx > 0)) mx = 1;
+  for(int i = 0; i < c * c; i++) a[i] = (double)(G[i] / mx);          /* normalised: tiny cross-products must not underflow inside LAPACK */
   dsyev_(&jobz, &uplo, &n, a, &lda, w, &wk, &lwork, &info);
   lwork = (int)wk + 32; double *work = malloc(sizeof(double) * lwork);
   dsyev_(&jobz, &uplo, &n, a, &lda, w, work, &lwork, &info);      /* ascending */
+  for(int i = 0; i < c; i++) w[i] = (double)(w[i] * mx);
   free(work); free(a);
   return info;
+}
+
+/* ---------------------------------------------------------------- reference preprocessing (long double, two-pass) */
+/* E (n x c, row-major), mean[c], scale[c] as the option is documented (preprocessing.h); a scale of exactly 0 (constant column) gives a
+ * zero column; returns the number of columns whose scale lies in the library's guard zone 0 < |scale| < F9_HI (C10 territory) */
+static int ref_preprocess(matrix *x, int scaling, ld *E, ld *mean, ld *scale, ld *sdev)
+{
+  int n = (int)x->row, c = (int)x->col, guard = 0;
+  for(int j = 0; j < c; j++){
+    ld m = 0; for(int i = 0; i < n; i++) m += (ld)x->data[i][j]; m /= n;
+    ld corr = 0; for(int i = 0; i < n; i++) corr += (ld)x->data[i][j] - m; m += corr / n;
+    ld ss = 0, s2 = 0, mn = x->data[0][j], mxv = x->data[0][j];
+    for(int i = 0; i < n; i++){ ld v = x->data[i][j]; ss += (v - m) * (v - m); s2 += v * v; if(v < mn) mn = v; if(v > mxv) mxv = v; }
+    ld sd = n > 1 ? sqrtl(ss / (n - 1)) : 0;
+    sdev[j] = sd;
+    ld sc = 1;
+    switch(scaling){
+      case 1: sc = sd; break;
+      case 2: sc = sqrtl(s2 / n); break;
+      case 3: sc = sqrtl(sd); break;
+      case 4: sc = mxv - mn; break;
+      case 5: sc = m; break;
+      default: sc = 1;
+    }
+    mean[j] = (scaling >= 0) ? m : 0;
+    scale[j] = sc;
+    if(scaling >= 1 && sc != 0 && fabsl(sc) < F9_HI) guard++;
+    for(int i = 0; i < n; i++){
+      ld v = (ld)x->data[i][j] - mean[j];
+      E[(size_t)i * c + j] = (scaling >= 1) ? (sc == 0 ? 0 : v / sc) : v;
+    }
+  }
+  return guard;
 }
 
 /* ---------------------------------------------------------------- comparisons */
@@ -118,47 +201,121 @@ static PCAMODEL *fit(matrix *x, int scaling, int npc)
   return m;
 }
 
+/* ---------------------------------------------------------------- observation of the fit under test (hooks H3, H4) */
+static int rec_on = 0;
+static struct { int got, open, np, len; long calls; long from[MAXNP], to[MAXNP]; } kern[2];
+static long st_its[MAXL]; static double st_conv[MAXL], st_prev[MAXL], st_first[MAXL];
+
+static void slice_cb(const char *site, size_t th, size_t from, size_t to, size_t len)
+{
+  if(!rec_on) return;
+  int s = !strcmp(site, "MT_DVectorMatrixDotProduct") ? 0 : !strcmp(site, "MT_MatrixDVectorDotProduct") ? 1 : -1;
+  if(s < 0) return;
+  if(th == 0){ kern[s].calls++; kern[s].open = !kern[s].got; if(kern[s].open){ kern[s].got = 1; kern[s].np = 0; kern[s].len = (int)len; } }
+  if(kern[s].open && th < MAXNP){ kern[s].from[th] = (long)from; kern[s].to[th] = (long)to; kern[s].np = (int)th + 1; }
+}
+static void iter_cb(const char *site, size_t comp, double a, double b, double conv)
+{
+  if(rec_on && !strcmp(site, "PCA") && comp < MAXL){ if(st_its[comp] == 0) st_first[comp] = a; st_its[comp]++; st_prev[comp] = st_conv[comp]; st_conv[comp] = conv; }
+  vrt_iter_cb(site, comp, a, b, conv);
+}
+static void emit_kern(int s, const char *name)
+{
+  static char buf[4096]; int p = 0;
+  p += snprintf(buf + p, sizeof(buf) - p, "{\"e\":\"Kern\",\"site\":\"%s\",\"len\":%d,\"np\":%d,\"from\":[", name, kern[s].len, kern[s].np);
+  for(int t = 0; t < kern[s].np; t++) p += snprintf(buf + p, sizeof(buf) - p, "%s%ld", t ? "," : "", kern[s].from[t]);
+  p += snprintf(buf + p, sizeof(buf) - p, "],\"to\":[");
+  for(int t = 0; t < kern[s].np; t++) p += snprintf(buf + p, sizeof(buf) - p, "%s%ld", t ? "," : "", kern[s].to[t]);
+  p += snprintf(buf + p, sizeof(buf) - p, "],\"calls\":%ld}", kern[s].calls > VQ_MAX ? VQ_MAX : kern[s].calls);
+  VRT_EMIT("%s", buf);
+}
+
+static void emit_pair(const char *head, const double *te, const double *pe, const double *ve, int npc, const char *tailjson)
+{
+  static char buf[4096]; int p = 0;
+  p += snprintf(buf + p, sizeof(buf) - p, "%s", head);
+  emit_arr(buf, &p, sizeof(buf), "terr", te, npc); p += snprintf(buf + p, sizeof(buf) - p, ",");
+  emit_arr(buf, &p, sizeof(buf), "perr", pe, npc);
+  if(ve){ p += snprintf(buf + p, sizeof(buf) - p, ","); emit_arr(buf, &p, sizeof(buf), "verr", ve, npc); }
+  p += snprintf(buf + p, sizeof(buf) - p, "%s}", tailjson ? tailjson : "");
+  VRT_EMIT("%s", buf);
+}
+
 /* ---------------------------------------------------------------- one case (child) */
 static int child(void *arg)
 {
   ccase *cs = (ccase *)arg;
-  int n = cs->n, c = cs->c, L = cs->L, r = L + cs->tail, npc = L, scaling = cs->scaling;
+  int n = cs->n, c = cs->c, L = cs->L, r = L + cs->tail, npc = L, scaling = cs->scaling, deg = cs->deg, loc = cs->loc;
   vrt_force_nproc((size_t)cs->nproc);
   vrt_install_iter_budget(3000000, 0);
+  libsci_verif_iter = iter_cb;
+  libsci_verif_slice = slice_cb;
   vrng rg; rg.s = (uint64_t)cs->mseed * 0x9E3779B97F4A7C15ULL + 777u; for(int i = 0; i < 4; i++) vr_next(&rg);
 
   ld *U = malloc(sizeof(ld) * n * r), *V = malloc(sizeof(ld) * c * r), *sig = malloc(sizeof(ld) * r);
-  rand_orth(&rg, n, r, 1, U);
-  rand_orth(&rg, c, r, 0, V);
+  int da = 0, db = 0;           /* the two identical rows / columns, or the constant column (da) */
+  if(deg == 0 || deg == 4){
+    rand_orth(&rg, n, r, 1, U);
+    rand_orth(&rg, c, r, 0, V);
+  }
+  else {
+    ld *cu = calloc((size_t)2 * n, sizeof(ld)), *cv = calloc((size_t)c, sizeof(ld));
+    int ncu = 1, ncv = 0;
+    for(int i = 0; i < n; i++) cu[i] = 1;
+    if(deg == 1){ da = (int)vr_int(&rg, 0, n - 1); do { db = (int)vr_int(&rg, 0, n - 1); } while(db == da); cu[n + da] = 1; cu[n + db] = -1; ncu = 2; }
+    if(deg == 2){ da = (int)vr_int(&rg, 0, c - 1); do { db = (int)vr_int(&rg, 0, c - 1); } while(db == da); cv[da] = 1; cv[db] = -1; ncv = 1; }
+    if(deg == 3){ da = (int)vr_int(&rg, 0, c - 1); cv[da] = 1; ncv = 1; }
+    if(!rand_orth_c(&rg, n, r, ncu, cu, U) || !rand_orth_c(&rg, c, r, ncv, cv, V)){ VRT_EMIT("{\"e\":\"Dropped\",\"why\":\"shape-too-small-for-degenerate-factor\"}"); return 0; }
+    if(deg == 1) for(int k = 0; k < r; k++) U[db * r + k] = U[da * r + k];
+    if(deg == 2) for(int k = 0; k < r; k++) V[db * r + k] = V[da * r + k];
+    if(deg == 3) for(int k = 0; k < r; k++) V[da * r + k] = 0;
+    free(cu); free(cv);
+  }
   ld scale = powl(10.0L, (ld)cs->dec);
   for(int k = 0; k < L; k++) sig[k] = sqrtl((ld)cs->s2[k]) * scale;
   for(int k = L; k < r; k++) sig[k] = 0.1L * sig[L - 1] * powl(0.95L, (ld)(k - L));      /* unseparated tail, never requested */
   matrix *x; NewMatrix(&x, n, c);
   double *off = calloc(c, sizeof(double));
+  static const double k5[3] = {0.1, 1.0 / 3.0, 0.7};
+  int uncentred_off = (scaling == -1 && (loc > 0 || deg == 4));
   for(int j = 0; j < c; j++){
     double mag = pow(10.0, -1.0 + 3.0 * vr_unif(&rg)) * (double)scale, sg = vr_int(&rg, 0, 1) ? 1.0 : -1.0;
-    off[j] = (scaling == -1) ? 0.0 : sg * mag;
+    double u1 = vr_unif(&rg), u2 = vr_unif(&rg); long kk = vr_int(&rg, 0, 2);
+    off[j] = sg * mag;
+    if(loc > 0 && u1 < 0.75){ /* |offset| = ratio x column sdev of the structured part */
+      ld var = 0; for(int k = 0; k < r; k++) var += sig[k] * sig[k] * V[j * r + k] * V[j * r + k];
+      double sd = (double)sqrtl(var / (n - 1));
+      if(sd > 0) off[j] = sg * pow(10.0, (double)loc - 1.0 + u2) * sd;
+    }
+    if(deg == 4 || (deg == 3 && j == da)) off[j] = sg * k5[kk] * (double)scale;
+    if(scaling == -1 && !uncentred_off) off[j] = 0.0;
   }
+  if(deg == 2) off[db] = off[da];
   for(int i = 0; i < n; i++) for(int j = 0; j < c; j++){ ld v = off[j]; for(int k = 0; k < r; k++) v += U[i * r + k] * sig[k] * V[j * r + k]; x->data[i][j] = (double)v; }
+  /* the reserved missing-value code (99999999 +- 0.1) is not data: outside the quantifier */
+  for(int i = 0; i < n; i++) for(int j = 0; j < c; j++) if(fabs(x->data[i][j]) > MISSING_LO && fabs(x->data[i][j]) < MISSING_HI){
+    VRT_EMIT("{\"e\":\"Dropped\",\"why\":\"entry-at-missing-code\"}");
+    return 0;
+  }
 
-  /* preprocessed matrix as the library defines it, and the guard-zone exclusion (F9 is C10's finding) */
-  matrix *E; NewMatrix(&E, n, c); dvector *avg, *scl; initDVector(&avg); initDVector(&scl);
-  MatrixPreprocess(x, scaling, avg, scl, E);
-  if(scaling >= 1) for(int j = 0; j < c; j++) if(fabs(scl->data[j]) < F9_HI){
+  /* preprocessed matrix by the documented definition, in long double; the guard-zone exclusion (F9 is C10's finding) */
+  ld *E = malloc(sizeof(ld) * n * c), *avg = malloc(sizeof(ld) * c), *scl = malloc(sizeof(ld) * c), *sdv = malloc(sizeof(ld) * c);
+  if(ref_preprocess(x, scaling, E, avg, scl, sdv) > 0){
     VRT_EMIT("{\"e\":\"Dropped\",\"why\":\"scale-in-guard-zone\"}");
     return 0;
   }
   /* oracle spectrum / axes */
   int m = c;                                  /* number of eigenpairs of E'E */
   ld *G = malloc(sizeof(ld) * c * c), *Gw = malloc(sizeof(ld) * c * c), *lam = malloc(sizeof(ld) * c), *W = malloc(sizeof(ld) * c * c);
-  for(int a = 0; a < c; a++) for(int b = 0; b < c; b++){ ld s = 0; for(int i = 0; i < n; i++) s += (ld)E->data[i][a] * E->data[i][b]; G[a * c + b] = s; Gw[a * c + b] = s; }
+  for(int a = 0; a < c; a++) for(int b = 0; b < c; b++){ ld s = 0; for(int i = 0; i < n; i++) s += E[(size_t)i * c + a] * E[(size_t)i * c + b]; G[a * c + b] = s; Gw[a * c + b] = s; }
   jacobi_eig(c, Gw, lam, W);
+  if(!(lam[0] > 0)){ VRT_EMIT("{\"e\":\"Dropped\",\"why\":\"null-matrix\"}"); return 0; }
   double *lw = malloc(sizeof(double) * c);
   int info = lapack_eigvals(c, G, lw);
   double oerr = 0;
   for(int k = 0; k < c; k++){ double d = fabs((double)(lam[k] - (ld)lw[c - 1 - k])) / (double)lam[0]; if(!(d <= oerr)) oerr = d; }
   if(info) oerr = 1.0;
-  int use_svd = (scaling == 0 || scaling == -1);
+  int use_svd = ((scaling == 0 || scaling == -1) && loc == 0 && !uncentred_off);
   if(use_svd){ /* the construction must agree with the oracle too */
     for(int k = 0; k < r && k < c; k++){ double d = fabs((double)(lam[k] - sig[k] * sig[k])) / (double)lam[0]; if(!(d <= oerr)) oerr = d; }
   }
@@ -169,7 +326,7 @@ static int child(void *arg)
     if(use_svd && k < r){ tl[k] = sig[k] * sig[k]; for(int j = 0; j < c; j++) tv[j * m + k] = V[j * r + k]; for(int i = 0; i < n; i++) ts[i * m + k] = U[i * r + k] * sig[k]; }
     else if(use_svd){ tl[k] = 0; for(int j = 0; j < c; j++) tv[j * m + k] = W[j * c + k]; for(int i = 0; i < n; i++) ts[i * m + k] = 0; }
     else { tl[k] = lam[k] > 0 ? lam[k] : 0; for(int j = 0; j < c; j++) tv[j * m + k] = W[j * c + k];
-           for(int i = 0; i < n; i++){ ld s = 0; for(int j = 0; j < c; j++) s += (ld)E->data[i][j] * W[j * c + k]; ts[i * m + k] = s; } }
+           for(int i = 0; i < n; i++){ ld s = 0; for(int j = 0; j < c; j++) s += E[(size_t)i * c + j] * W[j * c + k]; ts[i * m + k] = s; } }
     trace += tl[k];
   }
   {
@@ -179,11 +336,50 @@ static int child(void *arg)
     p += snprintf(buf + p, sizeof(buf) - p, "]}");
     VRT_EMIT("%s", buf);
   }
+  if(loc > 0 || uncentred_off){
+    /* what one ulp of the column locations means for E (from the input alone): the centred entries of column j cannot be known better
+     * than 2^-53 |mean_j| / scale_j each */
+    ld s = 0, ratio = 0;
+    for(int j = 0; j < c; j++){
+      ld mj = fabsl(avg[j]);
+      if(scaling == -1){ ld q = 0; for(int i = 0; i < n; i++) q += (ld)x->data[i][j] * x->data[i][j]; mj = sqrtl(q / n); }
+      ld sc = (scaling >= 1) ? fabsl(scl[j]) : 1;
+      if(sc > 0) s += (mj / sc) * (mj / sc);
+      if(sdv[j] > 0 && fabsl(avg[j]) / sdv[j] > ratio) ratio = fabsl(avg[j]) / sdv[j];
+    }
+    double locv = (double)(ldexpl(1.0L, -53) * sqrtl((ld)n * s) / sqrtl(tl[0]));
+    VRT_EMIT("{\"e\":\"Loc\",\"loc12\":%ld,\"ratio\":%ld}", vq12(locv), vq_unit((double)ratio, 1.0));
+  }
   VRT_EMIT("{\"e\":\"Oracle\",\"err\":%ld}", vq12(oerr));
 
+  /* in-process history: other fits first, their models released */
+  PCAMODEL *held = NULL;
+  if(cs->hist){
+    int n2 = n + 1, c2 = c + 2;
+    matrix *y; NewMatrix(&y, n2, c2); for(int i = 0; i < n2; i++) for(int j = 0; j < c2; j++) y->data[i][j] = vr_norm(&rg) * (double)scale + 3.0 * j * (double)scale;
+    PCAMODEL *h1 = fit(y, scaling == -1 ? 0 : scaling, npc < c2 ? npc : c2); DelPCAModel(&h1); DelMatrix(&y);
+    matrix *z; NewMatrix(&z, n, c); for(int i = 0; i < n; i++) for(int j = 0; j < c; j++) z->data[i][j] = vr_norm(&rg) * (double)scale * (1 + j) - 2.0 * (double)scale;
+    held = fit(z, scaling, npc); DelMatrix(&z);
+    PCAMODEL *h3 = fit(x, scaling == 0 ? 1 : 0, 1); DelPCAModel(&h3);            /* the same data under another option */
+  }
+
   /* the fit under test */
+  memset(kern, 0, sizeof(kern)); memset(st_its, 0, sizeof(st_its));
+  rec_on = 1;
   PCAMODEL *md = fit(x, scaling, npc);
+  rec_on = 0;
   if((int)md->scores->col != npc || (int)md->loadings->col != npc || (int)md->varexp->size != npc){ VRT_EMIT("{\"e\":\"Abort\",\"rc\":0,\"why\":\"model-shape\"}"); return 0; }
+  if(cs->nproc > 1){
+    if(kern[0].got) emit_kern(0, "vm");
+    if(kern[1].got) emit_kern(1, "mv");
+  }
+  /* start vector of component 1: t't of the first iteration against the largest column sum of squares of the reference E */
+  double start_err = 2.0;
+  { ld best = 0; for(int j = 0; j < c; j++) if(G[j * c + j] > best) best = G[j * c + j];
+    if(st_its[0] >= 1 && best > 0) start_err = fabs((double)(((ld)st_first[0] - best) / best)); }
+  for(int k = 0; k < npc; k++)
+    VRT_EMIT("{\"e\":\"Stop\",\"k\":%d,\"its\":%ld,\"conv\":%ld,\"prev\":%ld,\"start\":%ld}", k + 1, st_its[k] > VQ_MAX ? VQ_MAX : st_its[k],
+             st_its[k] >= 1 ? vq_unit(st_conv[k], 1e-13) : VQ_MAX, st_its[k] >= 2 ? vq_unit(st_prev[k], 1e-13) : VQ_MAX, k == 0 ? vq9(start_err) : 0L);
   for(int k = 0; k < npc; k++){
     int best = 0; ld bestv = -1;
     for(int j = 0; j < m; j++){ ld d = 0; for(int q = 0; q < c; q++) d += (ld)md->loadings->data[q][k] * tv[q * m + j]; d = fabsl(d); if(d > bestv){ bestv = d; best = j; } }
@@ -196,7 +392,6 @@ static int child(void *arg)
   }
   /* equivariance: paired runs */
   double te[MAXL], pe[MAXL], ve[MAXL];
-  static char buf[4096];
   ld *rt = malloc(sizeof(ld) * n * npc), *rp = malloc(sizeof(ld) * c * npc);
   { /* row permutation */
     int *pi = malloc(sizeof(int) * n); for(int i = 0; i < n; i++) pi[i] = i;
@@ -205,8 +400,7 @@ static int child(void *arg)
     PCAMODEL *m2 = fit(x2, scaling, npc);
     for(int k = 0; k < npc; k++){ for(int i = 0; i < n; i++) rt[i * npc + k] = md->scores->data[pi[i]][k]; for(int j = 0; j < c; j++) rp[j * npc + k] = md->loadings->data[j][k]; }
     for(int k = 0; k < npc; k++){ te[k] = col_err(m2->scores, k, rt, npc, k, n, 0); pe[k] = col_err(m2->loadings, k, rp, npc, k, c, 0); }
-    int p = 0; p += snprintf(buf + p, sizeof(buf) - p, "{\"e\":\"Pair\",\"kind\":\"rowperm\","); emit_arr(buf, &p, sizeof(buf), "terr", te, npc); p += snprintf(buf + p, sizeof(buf) - p, ","); emit_arr(buf, &p, sizeof(buf), "perr", pe, npc); p += snprintf(buf + p, sizeof(buf) - p, "}");
-    VRT_EMIT("%s", buf);
+    emit_pair("{\"e\":\"Pair\",\"kind\":\"rowperm\",", te, pe, NULL, npc, NULL);
     DelPCAModel(&m2); DelMatrix(&x2); free(pi);
   }
   { /* column permutation */
@@ -216,37 +410,80 @@ static int child(void *arg)
     PCAMODEL *m2 = fit(x2, scaling, npc);
     for(int k = 0; k < npc; k++){ for(int i = 0; i < n; i++) rt[i * npc + k] = md->scores->data[i][k]; for(int j = 0; j < c; j++) rp[j * npc + k] = md->loadings->data[pi[j]][k]; }
     for(int k = 0; k < npc; k++){ te[k] = col_err(m2->scores, k, rt, npc, k, n, 0); pe[k] = col_err(m2->loadings, k, rp, npc, k, c, 0); }
-    int p = 0; p += snprintf(buf + p, sizeof(buf) - p, "{\"e\":\"Pair\",\"kind\":\"colperm\","); emit_arr(buf, &p, sizeof(buf), "terr", te, npc); p += snprintf(buf + p, sizeof(buf) - p, ","); emit_arr(buf, &p, sizeof(buf), "perr", pe, npc); p += snprintf(buf + p, sizeof(buf) - p, "}");
-    VRT_EMIT("%s", buf);
+    emit_pair("{\"e\":\"Pair\",\"kind\":\"colperm\",", te, pe, NULL, npc, NULL);
     DelPCAModel(&m2); DelMatrix(&x2); free(pi);
   }
   if(scaling == 0 || scaling == -1){ /* orthogonal rotation of unscaled data: loadings rotate, scores stay */
     ld *Q = malloc(sizeof(ld) * c * c); rand_orth(&rg, c, c, 0, Q);
     matrix *x2; NewMatrix(&x2, n, c);
-    for(int i = 0; i < n; i++) for(int j = 0; j < c; j++){ ld s = 0; for(int q = 0; q < c; q++) s += (ld)x->data[i][q] * Q[q * c + j]; x2->data[i][j] = (double)s; }
-    PCAMODEL *m2 = fit(x2, scaling, npc);
-    for(int k = 0; k < npc; k++){ for(int i = 0; i < n; i++) rt[i * npc + k] = md->scores->data[i][k];
-      for(int j = 0; j < c; j++){ ld s = 0; for(int q = 0; q < c; q++) s += Q[q * c + j] * md->loadings->data[q][k]; rp[j * npc + k] = s; } }
-    for(int k = 0; k < npc; k++){ te[k] = col_err(m2->scores, k, rt, npc, k, n, 0); pe[k] = col_err(m2->loadings, k, rp, npc, k, c, 0); }
-    int p = 0; p += snprintf(buf + p, sizeof(buf) - p, "{\"e\":\"Pair\",\"kind\":\"rot\","); emit_arr(buf, &p, sizeof(buf), "terr", te, npc); p += snprintf(buf + p, sizeof(buf) - p, ","); emit_arr(buf, &p, sizeof(buf), "perr", pe, npc); p += snprintf(buf + p, sizeof(buf) - p, "}");
-    VRT_EMIT("%s", buf);
-    DelPCAModel(&m2); DelMatrix(&x2); free(Q);
+    int collide = 0;
+    for(int i = 0; i < n; i++) for(int j = 0; j < c; j++){ ld s = 0; for(int q = 0; q < c; q++) s += (ld)x->data[i][q] * Q[q * c + j]; x2->data[i][j] = (double)s;
+      if(fabs(x2->data[i][j]) > MISSING_LO && fabs(x2->data[i][j]) < MISSING_HI) collide = 1; }
+    if(!collide){
+      PCAMODEL *m2 = fit(x2, scaling, npc);
+      for(int k = 0; k < npc; k++){ for(int i = 0; i < n; i++) rt[i * npc + k] = md->scores->data[i][k];
+        for(int j = 0; j < c; j++){ ld s = 0; for(int q = 0; q < c; q++) s += Q[q * c + j] * md->loadings->data[q][k]; rp[j * npc + k] = s; } }
+      for(int k = 0; k < npc; k++){ te[k] = col_err(m2->scores, k, rt, npc, k, n, 0); pe[k] = col_err(m2->loadings, k, rp, npc, k, c, 0); }
+      emit_pair("{\"e\":\"Pair\",\"kind\":\"rot\",", te, pe, NULL, npc, NULL);
+      DelPCAModel(&m2);
+    }
+    DelMatrix(&x2); free(Q);
   }
   { /* PCA(cX) against PCA(X): same loadings, same explained variances, scores in the same directions */
     /* shrinking is only in-quantifier where no scale guard applies: scalings 0 and -1 (the options that do not normalise the magnitude) */
     int cexps[2] = {3, -3}; int nce = (scaling == -1 || scaling == 0) ? 2 : 1;
     for(int ci = 0; ci < nce; ci++){
       double cf = pow(10.0, cexps[ci]);
-      matrix *x2; NewMatrix(&x2, n, c); for(int i = 0; i < n; i++) for(int j = 0; j < c; j++) x2->data[i][j] = cf * x->data[i][j];
-      PCAMODEL *m2 = fit(x2, scaling, npc);
-      for(int k = 0; k < npc; k++){ for(int i = 0; i < n; i++) rt[i * npc + k] = md->scores->data[i][k]; for(int j = 0; j < c; j++) rp[j * npc + k] = md->loadings->data[j][k]; }
-      for(int k = 0; k < npc; k++){ te[k] = col_err(m2->scores, k, rt, npc, k, n, 1); pe[k] = col_err(m2->loadings, k, rp, npc, k, c, 0);
-        ve[k] = md->varexp->data[k] > 0 ? fabs(m2->varexp->data[k] - md->varexp->data[k]) / md->varexp->data[k] : 2.0; }
-      int p = 0; p += snprintf(buf + p, sizeof(buf) - p, "{\"e\":\"Scale\",\"cexp\":%d,", cexps[ci]); emit_arr(buf, &p, sizeof(buf), "terr", te, npc); p += snprintf(buf + p, sizeof(buf) - p, ","); emit_arr(buf, &p, sizeof(buf), "perr", pe, npc);
-      p += snprintf(buf + p, sizeof(buf) - p, ","); emit_arr(buf, &p, sizeof(buf), "verr", ve, npc); p += snprintf(buf + p, sizeof(buf) - p, "}");
-      VRT_EMIT("%s", buf);
-      DelPCAModel(&m2); DelMatrix(&x2);
+      matrix *x2; NewMatrix(&x2, n, c);
+      int collide = 0;
+      for(int i = 0; i < n; i++) for(int j = 0; j < c; j++){ x2->data[i][j] = cf * x->data[i][j]; if(fabs(x2->data[i][j]) > MISSING_LO && fabs(x2->data[i][j]) < MISSING_HI) collide = 1; }
+      if(!collide){
+        PCAMODEL *m2 = fit(x2, scaling, npc);
+        for(int k = 0; k < npc; k++){ for(int i = 0; i < n; i++) rt[i * npc + k] = md->scores->data[i][k]; for(int j = 0; j < c; j++) rp[j * npc + k] = md->loadings->data[j][k]; }
+        for(int k = 0; k < npc; k++){ te[k] = col_err(m2->scores, k, rt, npc, k, n, 1); pe[k] = col_err(m2->loadings, k, rp, npc, k, c, 0);
+          ve[k] = md->varexp->data[k] > 0 ? fabs(m2->varexp->data[k] - md->varexp->data[k]) / md->varexp->data[k] : 2.0; }
+        char head[64]; snprintf(head, sizeof(head), "{\"e\":\"Scale\",\"cexp\":%d,", cexps[ci]);
+        emit_pair(head, te, pe, ve, npc, NULL);
+        DelPCAModel(&m2);
+      }
+      DelMatrix(&x2);
     }
+  }
+  if(cs->hist){ /* the first fit again, after everything else */
+    PCAMODEL *m2 = fit(x, scaling, npc);
+    int same = 1;
+    for(int k = 0; k < npc; k++){
+      for(int i = 0; i < n; i++){ rt[i * npc + k] = md->scores->data[i][k]; if(memcmp(&m2->scores->data[i][k], &md->scores->data[i][k], sizeof(double))) same = 0; }
+      for(int j = 0; j < c; j++){ rp[j * npc + k] = md->loadings->data[j][k]; if(memcmp(&m2->loadings->data[j][k], &md->loadings->data[j][k], sizeof(double))) same = 0; }
+      if(memcmp(&m2->varexp->data[k], &md->varexp->data[k], sizeof(double))) same = 0;
+    }
+    for(int k = 0; k < npc; k++){ te[k] = col_err(m2->scores, k, rt, npc, k, n, 0); pe[k] = col_err(m2->loadings, k, rp, npc, k, c, 0); }
+    char tailj[32]; snprintf(tailj, sizeof(tailj), ",\"same\":%d", same);
+    emit_pair("{\"e\":\"Hist\",", te, pe, NULL, npc, tailj);
+    DelPCAModel(&m2);
+  }
+  { /* the statistics the model stores against the reference ones (outside the statement of C02: extra) */
+    double ae = 0, se = 0;
+    if(scaling >= 0 && (int)md->colaverage->size == c) for(int j = 0; j < c; j++){
+      ld den = fabsl(avg[j]) > sdv[j] ? fabsl(avg[j]) : sdv[j];
+      double d = den > 0 ? (double)(fabsl((ld)md->colaverage->data[j] - avg[j]) / den) : 0; if(!(d <= ae)) ae = d; }
+    else if(scaling >= 0) ae = 2.0;
+    if(scaling >= 1 && (int)md->colscaling->size == c) for(int j = 0; j < c; j++){
+      if(scl[j] == 0) continue;
+      double d = (double)(fabsl((ld)md->colscaling->data[j] - scl[j]) / fabsl(scl[j])); if(!(d <= se)) se = d; }
+    else if(scaling >= 1) se = 2.0;
+    VRT_EMIT("{\"e\":\"Prep\",\"avgErr\":%ld,\"sclErr\":%ld}", vq9(ae), vq9(se));
+  }
+  if(cs->hist && held){ /* fit into a model that already holds a fit of other data of the same shape (extra) */
+    PCA(x, scaling, (size_t)npc, held, NULL);
+    if((int)held->scores->col == npc && (int)held->scores->row == n && (int)held->loadings->row == c && (int)held->loadings->col == npc){
+      for(int k = 0; k < npc; k++){ for(int i = 0; i < n; i++) rt[i * npc + k] = md->scores->data[i][k]; for(int j = 0; j < c; j++) rp[j * npc + k] = md->loadings->data[j][k]; }
+      for(int k = 0; k < npc; k++){ te[k] = col_err(held->scores, k, rt, npc, k, n, 0); pe[k] = col_err(held->loadings, k, rp, npc, k, c, 0); }
+    }
+    else for(int k = 0; k < npc; k++) te[k] = pe[k] = 2.0;
+    char tailv[48]; snprintf(tailv, sizeof(tailv), ",\"vlen\":%d", (int)held->varexp->size);
+    emit_pair("{\"e\":\"Reuse\",", te, pe, NULL, npc, tailv);
+    DelPCAModel(&held);
   }
   DelPCAModel(&md);
   return 0;
@@ -259,8 +496,15 @@ static void run_case(ccase *cs)
   VRT_EMIT("{\"e\":\"Reset\"}");
   if(cs->L < 1 || cs->L > MAXL || cs->L > mx){ VRT_EMIT("{\"e\":\"Dropped\",\"why\":\"shape-too-small\"}"); return; }
   if(cs->L + cs->tail > mx) cs->tail = mx - cs->L;
-  VRT_EMIT("{\"e\":\"Case\",\"seed\":%ld,\"n\":%d,\"c\":%d,\"scaling\":%d,\"dec\":%d,\"tail\":%d,\"L\":%d,\"nproc\":%d,\"src\":\"%s\"}",
-           cs->mseed, cs->n, cs->c, cs->scaling, cs->dec, cs->tail, cs->L, cs->nproc, (cs->scaling == 0 || cs->scaling == -1) ? "svd" : "jacobi");
+  if(cs->nproc < 1 || cs->nproc > MAXNP){ fprintf(stderr, "bad nproc\n"); exit(2); }
+  /* degenerate factors need room: rows n - 2 >= r, columns c - 1 >= r; otherwise the plain case is run (and recorded as such) */
+  if(cs->deg == 1 && cs->n - 2 < cs->L + cs->tail) cs->deg = 0;
+  if((cs->deg == 2 || cs->deg == 3) && cs->c - 1 < cs->L + cs->tail) cs->deg = 0;
+  if(cs->loc > 0 && cs->deg != 0) cs->deg = 0;
+  int uoff = (cs->scaling == -1 && (cs->loc > 0 || cs->deg == 4));
+  VRT_EMIT("{\"e\":\"Case\",\"seed\":%ld,\"n\":%d,\"c\":%d,\"scaling\":%d,\"dec\":%d,\"tail\":%d,\"L\":%d,\"nproc\":%d,\"loc\":%d,\"deg\":%d,\"hist\":%d,\"src\":\"%s\"}",
+           cs->mseed, cs->n, cs->c, cs->scaling, cs->dec, cs->tail, cs->L, cs->nproc, cs->loc, cs->deg, cs->hist,
+           ((cs->scaling == 0 || cs->scaling == -1) && cs->loc == 0 && !uoff) ? "svd" : "jacobi");
   int rc = vrt_run_child(child, cs, 900);
   fseek(vrt_out, 0, SEEK_END);
   if(rc != 0){ VRT_EMIT("{\"e\":\"Abort\",\"rc\":%d,\"why\":\"%s\"}", rc, rc == 97 ? "iteration-budget" : rc == 124 ? "watchdog" : rc >= 1000 ? "signal" : "exit"); n_abort++; }
@@ -272,16 +516,16 @@ int main(int argc, char **argv)
   if(argc < 4){ fprintf(stderr, "usage\n"); return 2; }
   vrt_open(argv[1]);
   ccase cs;
-  if(!strcmp(argv[2], "one") && argc >= 11){
-    cs.n = atoi(argv[3]); cs.c = atoi(argv[4]); cs.scaling = atoi(argv[5]); cs.dec = atoi(argv[6]); cs.tail = atoi(argv[7]); cs.mseed = atol(argv[8]); cs.nproc = atoi(argv[9]); cs.L = atoi(argv[10]);
-    if(cs.L < 1 || cs.L > MAXL || argc < 11 + cs.L){ fprintf(stderr, "bad spectrum\n"); return 2; }
-    for(int k = 0; k < cs.L; k++) cs.s2[k] = atof(argv[11 + k]);
+  if(!strcmp(argv[2], "one") && argc >= 14){
+    cs.n = atoi(argv[3]); cs.c = atoi(argv[4]); cs.scaling = atoi(argv[5]); cs.dec = atoi(argv[6]); cs.tail = atoi(argv[7]); cs.mseed = atol(argv[8]); cs.nproc = atoi(argv[9]);
+    cs.loc = atoi(argv[10]); cs.deg = atoi(argv[11]); cs.hist = atoi(argv[12]); cs.L = atoi(argv[13]);
+    if(cs.L < 1 || cs.L > MAXL || argc < 14 + cs.L){ fprintf(stderr, "bad spectrum\n"); return 2; }
+    for(int k = 0; k < cs.L; k++) cs.s2[k] = atof(argv[14 + k]);
     run_case(&cs);
   }
-  else if(!strcmp(argv[2], "cases") && argc >= 5){
+  else if(!strcmp(argv[2], "cases")){
     FILE *f = fopen(argv[3], "r"); if(!f){ perror("casefile"); return 2; }
-    cs.nproc = atoi(argv[4]);
-    while(fscanf(f, "%d %d %d %d %d %ld %d", &cs.n, &cs.c, &cs.scaling, &cs.dec, &cs.tail, &cs.mseed, &cs.L) == 7){
+    while(fscanf(f, "%d %d %d %d %d %ld %d %d %d %d %d", &cs.n, &cs.c, &cs.scaling, &cs.dec, &cs.tail, &cs.mseed, &cs.nproc, &cs.loc, &cs.deg, &cs.hist, &cs.L) == 11){
       if(cs.L < 1 || cs.L > MAXL){ fprintf(stderr, "bad L\n"); return 2; }
       for(int k = 0; k < cs.L; k++) if(fscanf(f, "%lf", &cs.s2[k]) != 1){ fprintf(stderr, "bad spectrum\n"); return 2; }
       run_case(&cs);
